@@ -61,7 +61,7 @@
         assert!(out == "&lt;&amp;&gt;|&lt;&amp;&gt;|&LT;&AMP;&GT;" || out == "&lt;&amp;&gt;|&lt;&amp;&gt;|&amp;LT;&amp;AMP;&amp;GT;", "{out}");
     }
 
-//# ob name=safe_capture_filters_native role=native_bounded fn=filters::{replace,join,upper,lower,capitalize,trim,title}+value::argtypes::StringInput::{format,preserve_safety} kind=bounded bound="4 kinds of captured (already escaped, safe) output {set-block, macro result, call-block caller(), filter block} x 16 safety-aware filter expressions combining the capture with unsafe data in every argument position (needle present / absent / data-dependent, joiner and items) x 2 data/markup pairs chosen so that every metacharacter in the output can be attributed (quotes only in the data with angle brackets only in the markup, and the reverse) x 3 template names" stmt="when a safety-aware filter combines captured output with unsafe data, the data is escaped exactly once (no raw < > \" ' from data) and the captured output is not escaped a second time, whether or not the needle occurs and whichever metacharacters the data contains"
+//# ob name=safe_capture_filters_native role=native_bounded fn=filters::*+value::argtypes::StringInput::{format,preserve_safety} kind=bounded bound="every built-in filter except safe / tojson x 19 argument shapes (the capture and unsafe data as plain string and inside list / tuple / map in every argument position) x 3 kinds of capture x 2 data / markup pairs, and the capture as a format string / operand of ~ (16 shapes x 4 format strings); 4 kinds of captured (already escaped, safe) output {set-block, macro result, call-block caller(), filter block} x 16 safety-aware filter expressions combining the capture with unsafe data in every argument position (needle present / absent / data-dependent, joiner and items) x 2 data/markup pairs chosen so that every metacharacter in the output can be attributed (quotes only in the data with angle brackets only in the markup, and the reverse) x 3 template names" stmt="when a safety-aware filter combines captured output with unsafe data, the data is escaped exactly once (no raw < > \" ' from data) and the captured output is not escaped a second time, whether or not the needle occurs and whichever metacharacters the data contains"
     fn safe_capture_filters_native() {
         use crate::Environment;
         // (data, markup of the capture, raw characters that can only come from data, entity prefixes that can only come from escaping the markup or escaping twice)
@@ -107,4 +107,35 @@
             }
         }
         assert!(n > 300, "{n}");
+        // every built-in filter (names from the engine's table; `safe` and `tojson` excluded: explicit / documented safe
+        // output) applied to a capture with unsafe data as a plain string and inside containers in every argument
+        // position, and the capture used as a format string: whatever the filter does with the safe flag, no raw
+        // metacharacter that can only come from the data may reach the output. Filters that reject the arguments are skipped.
+        let filters: Vec<String> = crate::defaults::get_builtin_filters().keys().map(|k| k.to_string()).filter(|k| k != "safe" && k != "tojson").collect();
+        assert!(filters.len() > 30);
+        let shapes = ["C|F", "C|F(v)", "C|F([v])", "C|F((v,))", "C|F({'k': v})", "C|F(v, v)", "C|F(C, v)", "C|F(v, C)", "C|F([v], C)", "v|F(C)", "[v]|F(C)", "[C, v]|F", "[C, [v]]|F", "[[v], C]|F", "{'k': C, 'j': v}|F", "[C, v]|F(C)",
+                      "C|F(attribute=v)", "[{'a': C, 'b': v}]|F(attribute='b')", "[{'a': C, 'b': [v]}]|map(attribute='b')|F(C)"];
+        let fmt_shapes = ["C|format(v)", "C|format([v])", "C|format((v, v))", "C|format({'k': v})", "C|format(k=v)", "C|format(k=[v])", "C|format(v, [v])", "C|format(C, v)", "C|format([C, v])", "C ~ v", "C ~ [v]", "v ~ C", "[v] ~ C", "C ~ {'k': v}",
+                          "C * 2 ~ [v]", "(C ~ C)|format(v, [v])"];
+        let mut m = 0;
+        for (data, markup, raw_from_data, _) in pairs {
+            let env = Environment::new();
+            let check_raw = |src: &str| {
+                if let Ok(out) = env.render_named_str("g.html", src, crate::context! { v => data }) {
+                    for ch in raw_from_data { assert!(!out.contains(*ch), "raw {ch:?} from data in the output of {src:?}: {out:?}"); }
+                }
+            };
+            for cap in captures {
+                for f in &filters { for sh in shapes {
+                    check_raw(&cap.replace("MARKUP", markup).replace("EXPR", &sh.replace('F', f).replace('C', "c")));
+                    m += 1;
+                }}
+                for fm in ["%s", "%s %s", "%(k)s", "[%s|%s]"] { for sh in fmt_shapes {
+                    let mk = format!("{markup}{fm}");
+                    check_raw(&cap.replace("MARKUP", &mk).replace("EXPR", &sh.replace('C', "c")));
+                    m += 1;
+                }}
+            }
+        }
+        assert!(m > 5000, "{m}");
     }
